@@ -93,6 +93,9 @@ func (g *genC13) Block(w *World, b int) Block {
 		steps = append(steps, Step{Kind: "crash", N: map[string]int64{"node": 0}})
 	}
 	blk.Steps = g.net.Apply(rng, b, len(w.nodes), steps)
+	if rng.Chance(1, 60) {
+		blk.Reimport = true // the chain is restarted from its own export; the emission schedule must carry over
+	}
 	return blk
 }
 
